@@ -4,7 +4,7 @@
    compose/decompose, buffer.rs sort / merge_clusters / merge_out_clusters).  Crate tables: Gen/NormTables.v.
    Unicode side: Gen/UnicodeSpec.v (CPython unicodedata) — "stable subset" = spec_assigned.
    `has` (the font's cmap), general category and combining class are universally quantified. *)
-From Coq Require Import List NArith Bool Sorted Permutation.
+From Coq Require Import List NArith Arith Bool Sorted Permutation Lia.
 From RB Require Import Gen.NormTables Gen.UnicodeSpec Model.Normalize
   Proofs.NormalizeP Proofs.NormalizeSortP Proofs.NormalizeRecompP.
 Import ListNotations.
@@ -183,6 +183,56 @@ Print Assumptions C09_recompose_glyphs.
 
 (* ================================================================== examples (non-vacuity) *)
 Definition ex_font (l : list N) (c : N) : bool := existsb (N.eqb c) l.
+(* ================================================================== the class the marks are sorted by *)
+
+(* Round 2 sorts marks by the MODIFIED combining class (unicode.rs MODIFIED_COMBINING_CLASS, regenerated from the
+   source).  Canonical equivalence is defined by the canonical class, so the statement "canonically equivalent
+   strings get the same glyphs" needs the two to agree wherever HarfBuzz does not deliberately deviate: the table
+   is the identity outside the script-specific classes (Hebrew 10-25 and Arabic 27-33, permuted inside their own
+   block; Telugu 84/91 and Thai 103, lowered; Tibetan 130/132).  In particular two generic classes (1, 6-9,
+   200-240: everything a Latin/Greek/Cyrillic text can contain) are never conflated or swapped. *)
+Definition script_specific_classes : list N :=
+  [10; 11; 12; 13; 14; 15; 16; 17; 18; 19; 20; 21; 22; 23; 24; 25; 27; 28; 29; 30; 31; 32; 33; 84; 91; 103; 130; 132].
+Definition mcc_of_class (k : N) : N := nth (N.to_nat k) MODIFIED_COMBINING_CLASS 0.
+Definition mcc_identity_check : bool :=
+  forallb (fun i => let k := N.of_nat i in existsb (N.eqb k) script_specific_classes || (mcc_of_class k =? k)) (seq 0 256).
+Definition injective_on (l : list N) : bool :=
+  forallb (fun a => forallb (fun b => (a =? b) || negb (mcc_of_class a =? mcc_of_class b)) l) l.
+
+Theorem C09_modified_class_is_canonical_class_outside_script_tables : forall k,
+  k < 256 -> existsb (N.eqb k) script_specific_classes = false -> mcc_of_class k = k.
+Proof.
+  intros k Hk Hs.
+  assert (H : mcc_identity_check = true) by (vm_compute; reflexivity).
+  unfold mcc_identity_check in H. rewrite forallb_forall in H.
+  specialize (H (N.to_nat k)). rewrite N2Nat.id in H.
+  assert (Hin : In (N.to_nat k) (seq 0 256)).
+  { apply in_seq. lia. }
+  specialize (H Hin). cbv zeta in H. rewrite Hs in H. cbn [orb] in H. apply N.eqb_eq. exact H.
+Qed.
+Print Assumptions C09_modified_class_is_canonical_class_outside_script_tables.
+
+(* inside the Hebrew and the Arabic block the modified classes are a permutation: distinct classes stay distinct *)
+Theorem C09_modified_class_injective_inside_script_blocks :
+  injective_on [10; 11; 12; 13; 14; 15; 16; 17; 18; 19; 20; 21; 22; 23; 24; 25; 26] = true
+  /\ injective_on [27; 28; 29; 30; 31; 32; 33; 34; 35; 36] = true
+  /\ forallb (fun k => (10 <=? mcc_of_class k) && (mcc_of_class k <=? 26)) [10; 11; 12; 13; 14; 15; 16; 17; 18; 19; 20; 21; 22; 23; 24; 25; 26] = true
+  /\ forallb (fun k => (27 <=? mcc_of_class k) && (mcc_of_class k <=? 36)) [27; 28; 29; 30; 31; 32; 33; 34; 35; 36] = true.
+Proof. vm_compute. repeat split; reflexivity. Qed.
+Print Assumptions C09_modified_class_injective_inside_script_blocks.
+
+(* consequence used by the reordering statements: two generic classes compare as their canonical classes do *)
+Theorem C09_generic_classes_keep_their_order : forall a b,
+  a < 256 -> b < 256 ->
+  existsb (N.eqb a) script_specific_classes = false -> existsb (N.eqb b) script_specific_classes = false ->
+  (mcc_of_class a ?= mcc_of_class b) = (a ?= b).
+Proof.
+  intros a b Ha Hb Sa Sb.
+  rewrite (C09_modified_class_is_canonical_class_outside_script_tables a Ha Sa).
+  rewrite (C09_modified_class_is_canonical_class_outside_script_tables b Hb Sb). reflexivity.
+Qed.
+Print Assumptions C09_generic_classes_keep_their_order.
+
 Definition ex_shape (f t : list N) : list N :=
   map fst (shape_chars (ex_font f) spec_is_mark spec_is_space spec_ccc (form_clusters spec_is_mark t)).
 
